@@ -492,6 +492,106 @@ func runCOUNTCHECK(c *Ctx) {
 		}
 		for _, b := range fn.Blocks {
 			for _, ins := range b.Instrs {
+				// a decoded link list copied by position into the node's links (made as len(Key)+1 slots): the index is
+				// bounded by the decoded list only, so the two lengths must have been compared
+				if ia, ok := ins.(*ssa.IndexAddr); ok {
+					if _, f, isNode := nodeSliceRoot(ia.X); isNode && f == "Link" {
+						if _, isC := ia.Index.(*ssa.Const); !isC {
+							isym := ir.Sym(ia.Index)
+							decodedBase := ""
+							ir.FlowFact(ia, func(fc ir.Fact) bool {
+								if !belowLenFact(fc, func(v ssa.Value) bool { return ir.Sym(v) == isym }) {
+									return false
+								}
+								bin := fc.Cond.(*ssa.BinOp)
+								for _, o := range []ssa.Value{bin.X, bin.Y} {
+									if bb, ff, ok := lenOfField(o); ok && ff == "Link" {
+										if call, ok := ir.ResolveCell(o).(*ssa.Call); ok {
+											if _, _, isNodeList := nodeSliceRoot(call.Call.Args[0]); !isNodeList {
+												decodedBase = bb
+											}
+										}
+									}
+								}
+								return false
+							}, func(ssa.Instruction) bool { return false })
+							if decodedBase != "" {
+								// the copy runs only where the decoded list is non-nil: a path on which it was found nil
+								// cannot reach it, so the nil outcome of that test discharges the obligation as well
+								linkSym := ""
+								for _, f := range ir.FactsAt(ia.Block()) {
+									if tv, tnn, isNil := ir.NilTest(f.Cond); isNil && f.Truth == tnn {
+										if ld, ok := tv.(*ssa.UnOp); ok && ld.Op == token.MUL {
+											if fa, ok := ld.X.(*ssa.FieldAddr); ok && ir.FieldName(fa.X.Type(), fa.Field) == "Link" && ir.Sym(ir.ResolveCell(fa.X)) == decodedBase {
+												linkSym = ir.Sym(tv)
+											}
+										}
+									}
+								}
+								// …and so does the loop's own bound: an index below len(S.Link) exists only if the list is not nil
+								if linkSym == "" {
+									for _, f := range ir.FactsAt(ia.Block()) {
+										if !belowLenFact(f, func(v ssa.Value) bool { return ir.Sym(v) == isym }) {
+											continue
+										}
+										bin := f.Cond.(*ssa.BinOp)
+										for _, o := range []ssa.Value{bin.X, bin.Y} {
+											if bb, ff, ok := lenOfField(o); ok && ff == "Link" && bb == decodedBase {
+												if call, ok := ir.ResolveCell(o).(*ssa.Call); ok {
+													linkSym = ir.Sym(call.Call.Args[0])
+												}
+											}
+										}
+									}
+								}
+								eq := ir.FlowFact(ia, func(fc ir.Fact) bool {
+									if linkSym != "" {
+										if tv, tnn, isNil := ir.NilTest(fc.Cond); isNil && fc.Truth != tnn && ir.Sym(tv) == linkSym {
+											return true
+										}
+									}
+									bin, ok := fc.Cond.(*ssa.BinOp)
+									if !ok {
+										return false
+									}
+									side := func(v ssa.Value) (string, string, int64, bool) {
+										if bb, f, ok := lenOfField(v); ok {
+											return bb, f, 0, true
+										}
+										if bo, ok := ir.ResolveCell(v).(*ssa.BinOp); ok && bo.Op == token.ADD {
+											if k, isK := ir.ConstInt(bo.Y); isK {
+												if bb, f, ok := lenOfField(bo.X); ok {
+													return bb, f, k, true
+												}
+											}
+										}
+										return "", "", 0, false
+									}
+									b1, f1, k1, ok1 := side(bin.X)
+									b2, f2, k2, ok2 := side(bin.Y)
+									if !ok1 || !ok2 || b1 != decodedBase || b2 != decodedBase {
+										return false
+									}
+									if f2 == "Link" {
+										f1, f2, k1, k2 = f2, f1, k2, k1
+									}
+									if f1 != "Link" || (f2 != "Key" && f2 != "Value") || k2-k1 != 1 {
+										return false
+									}
+									return (bin.Op == token.EQL && fc.Truth) || (bin.Op == token.NEQ && !fc.Truth)
+								}, func(ssa.Instruction) bool { return false })
+								what := fmt.Sprintf("decoded %s.Link copied by position into the node's links in %s", pathDesc(decodedBase), ir.FuncName(fn))
+								if eq {
+									c.OK(P.InstrPos(ia), what, "len(decoded Link) == len(decoded Key)+1 was established on every path", false)
+								} else {
+									c.Violation(fn, P.InstrPos(ia), "decoded links copied without comparing their number with the number of keys",
+										"the node's link list is made with len(Key)+1 slots and filled by position from the decoded list: a stored node with more links panics here (index out of range) instead of being rejected, one with fewer is accepted with children missing — a root naming such a top node must fail to load")
+								}
+								continue
+							}
+						}
+					}
+				}
 				// decoded (not yet validated) parallel lists: S.Value[i] under i < len(S.Key) needs len(S.Key) == len(S.Value)
 				if ia, ok := ins.(*ssa.IndexAddr); ok {
 					ld, isLd := ia.X.(*ssa.UnOp)
